@@ -215,6 +215,71 @@ pub fn check(thorough: bool, _seed: u64) -> Check {
         classes: vec![],
         bounds: json!({"pairs": "one number replaced by {0,-0.0,EPSILON,-x,x+1e-3,succ(x),1e300,+inf}, optionally against {0,1e-4,+inf} in the same position of the other operand"}),
     };
+    // long piecewise functions / PolyN: one number perturbed at every position in turn (blocked or chunked comparisons)
+    let big = Phase {
+        name: "long-values-single-perturbation",
+        units: 4,
+        split: 2,
+        body: Box::new(move |unit, cx| {
+            let sizes = [8usize, 9, 15, 16, 17, 24, 31, 32, 33, 40, 64, 65, 100, 129];
+            let n = sizes[cx.choose(if thorough { sizes.len() } else { 11 })];
+            let (per, total) = match unit { 0 => (4, n * 4), 1 => (7, n * 7), 2 => (3, n * 3), _ => (1, n) };
+            let _ = per;
+            let a = base(total);
+            let pos = cx.choose(total);
+            let mut b = a.clone();
+            b[pos] = a[pos] * PERT[1 + cx.choose(2)];
+            let eps = *cx.pick(&EPS);
+            let rel = *cx.pick(&REL);
+            cx.nontrivial();
+            cx.evals(4);
+            if cx.sampling() {
+                cx.sample(json!({"kind": unit, "numbers": total, "perturbed_position": pos, "epsilon": fj(eps), "max_relative": rel}));
+            }
+            let got = match unit {
+                0 => { let (x, y) = (pw_from_nums::<Poly2>(&a), pw_from_nums::<Poly2>(&b)); guard(|| (x.abs_diff_eq(&y, eps), y.abs_diff_eq(&x, eps), x.relative_eq(&y, eps, rel), y.relative_eq(&x, eps, rel), x == y)) }
+                1 => { let (x, y) = (pw_from_nums::<IntOfLogPoly4>(&a), pw_from_nums::<IntOfLogPoly4>(&b)); guard(|| (x.abs_diff_eq(&y, eps), y.abs_diff_eq(&x, eps), x.relative_eq(&y, eps, rel), y.relative_eq(&x, eps, rel), x == y)) }
+                2 => { let (x, y) = (pw_from_nums::<Log<Poly1>>(&a), pw_from_nums::<Log<Poly1>>(&b)); guard(|| (x.abs_diff_eq(&y, eps), y.abs_diff_eq(&x, eps), x.relative_eq(&y, eps, rel), y.relative_eq(&x, eps, rel), x == y)) }
+                _ => { let (x, y) = (PolyN(a.clone()), PolyN(b.clone())); guard(|| (x.abs_diff_eq(&y, eps), y.abs_diff_eq(&x, eps), x.relative_eq(&y, eps, rel), y.relative_eq(&x, eps, rel), x == y)) }
+            };
+            let got = got.map_err(|p| Fail::new(format!("approx comparison panicked: {p}"), json!({"numbers": total})))?;
+            let names = ["Piecewise<Poly2>", "Piecewise<IntOfLogPoly4>", "Piecewise<Log<Poly1>>", "PolyN"];
+            verdict(names[unit], got, oracle(&a, &b, eps, rel), false, true).map(|_| ()).map_err(|(what, d)| Fail::new(what, json!({"pieces_or_length": n, "numbers": total, "perturbed_position": pos, "a[pos]": fj(a[pos]), "b[pos]": fj(b[pos]), "epsilon": fj(eps), "max_relative": fj(rel), "observation": d})))
+        }),
+        classes: vec![],
+        bounds: json!({"values": "Piecewise<Poly2>, Piecewise<IntOfLogPoly4>, Piecewise<Log<Poly1>> with n pieces and PolyN of length n, n in {8,9,15,16,17,24,31,32,33,40,64} (+65,100,129 thorough)", "pairs": "one number perturbed (inside / outside the 1e-3 tolerances) at every position in turn, every tolerance"}),
+    };
+    // the same object on both sides (aliasing) with special values: the relation must still be the number-by-number one
+    let alias = Phase {
+        name: "same-object-on-both-sides",
+        units: 3,
+        split: 0,
+        body: Box::new(move |unit, cx| {
+            let n = 1 + cx.choose(6);
+            let mut a = base(if unit == 1 { n * 4 } else { n });
+            let pos = cx.choose(a.len());
+            a[pos] = [1.5, f64::INFINITY, f64::NEG_INFINITY, f64::NAN, 0.0, f64::MAX][cx.choose(6)];
+            let eps = *cx.pick(&EPS);
+            let rel = *cx.pick(&REL);
+            cx.nontrivial();
+            cx.evals(2);
+            let (abs, re) = match unit {
+                0 => { let x = PolyN(a.clone()); let xr = &x; guard(|| (xr.abs_diff_eq(xr, eps), xr.relative_eq(xr, eps, rel))) }
+                1 => { let x = pw_from_nums::<Poly2>(&a); let xr = &x; guard(|| (xr.abs_diff_eq(xr, eps), xr.relative_eq(xr, eps, rel))) }
+                _ => { let mut v = a.clone(); v.resize(6, 2.0); let x = IntOfLogPoly4::from_nums(&v); a = v; let xr = &x; guard(|| (xr.abs_diff_eq(xr, eps), xr.relative_eq(xr, eps, rel))) }
+            }.map_err(|p| Fail::new(format!("approx comparison panicked: {p}"), json!({"numbers": fjs(&a)})))?;
+            let want = oracle(&a, &a, eps, rel);
+            if cx.sampling() {
+                cx.sample(json!({"kind": unit, "numbers": fjs(&a)}));
+            }
+            if (abs, re) != want {
+                return Err(Fail::new("comparing a value with itself (same object) is not the number-by-number relation", json!({"kind": (["PolyN", "Piecewise<Poly2>", "IntOfLogPoly4"][unit]), "numbers": fjs(&a), "epsilon": fj(eps), "max_relative": fj(rel), "got(abs,rel)": [abs, re], "number-by-number(abs,rel)": [want.0, want.1]})));
+            }
+            Ok(())
+        }),
+        classes: vec![],
+        bounds: json!({"values": "PolyN (1..6 coefficients), Piecewise<Poly2> (1..6 pieces), IntOfLogPoly4 with one number replaced by {1.5, +inf, -inf, NaN, 0, MAX}", "comparison": "x.abs_diff_eq(&x) / x.relative_eq(&x) through the same reference"}),
+    };
     let lengths = Phase {
         name: "different-lengths",
         units: 5 * 5,
@@ -269,7 +334,7 @@ pub fn check(thorough: bool, _seed: u64) -> Check {
         id: "C17",
         rule: "choice tree: type (unit) x perturbation per number x epsilon x max_relative; each leaf calls the real abs_diff_eq / relative_eq in both argument orders and ==; non-trivial = at least one number perturbed / special value / different lengths".into(),
         assumptions: vec!["approx's own f64 impls are the per-number reference".into()],
-        phases: vec![perturb, special, lengths],
+        phases: vec![perturb, special, lengths, big, alias],
         extra,
         controls: vec![],
     }
